@@ -93,11 +93,11 @@ def pre_build():
 
 
 def cases(rng, tier):
-    return S.announce(S.gen_cases(rng, tier, 1000 if tier == "quick" else 12000))
+    return S.announce(S.gen_cases(rng, tier, 800 if tier == "quick" else 12000))
 
 
 def search_cases(rng, tier):
-    return S.announce(S.gen_cases(rng, "thorough", 1500))
+    return S.announce(S.gen_cases(rng, "thorough", 1500, directed=False))
 
 
 run_impl = S.run_impl
